@@ -10,6 +10,7 @@ A case (JSON):
   dirs    [relative paths of directories that exist besides the ancestors of files]
   builtin 'blt' (redirect builtin_pipelines_dir to T/blt) | None (the real {repo}/pypyr/pipelines)
   subdir  config.pipelines_subdir ('pipelines')
+  pre_syspath  [absolute dirs ($T/...) appended to sys.path before pypyr runs]
   invoke  {name, loader, py_dir}
   tags    [feature tags]
 cwd is always T/cwd.
@@ -116,6 +117,7 @@ def run_case(case):
         inv = case['invoke']
         spec = {'builtin': (root + '/' + case['builtin']) if case.get('builtin') else None,
                 'subdir': case.get('subdir'),
+                'pre_syspath': [sub(d, root) for d in case.get('pre_syspath', [])],
                 'invoke': {'name': sub(inv['name'], root), 'loader': inv.get('loader'),
                            'py_dir': sub(inv.get('py_dir'), root)}}
         env = {'PATH': os.environ.get('PATH', '/usr/bin:/bin'),
@@ -275,14 +277,18 @@ def coq_events(tab, ev):
     return pv.coq_list([pv.coq_list([tab.text(x) for x in e]) for e in ev])
 
 
+def coq_pre(tab, case):
+    return pv.coq_list([tab.ref(sub(d, CT)) for d in case.get('pre_syspath', [])])
+
+
 def coq_check(case, obs):
     ev = obs_events(obs)
     return with_sharing(lambda tab: (
-        f'check_case {coq_world(tab, case)} {tab.ref(CREPO)} '
+        f'check_case_pre {coq_world(tab, case)} {tab.ref(CREPO)} {coq_pre(tab, case)} '
         f'{coq_invoke(tab, case)} {coq_events(tab, ev)}'))
 
 
 def coq_model_obs(case):
     return with_sharing(lambda tab: (
-        f'run_case {coq_world(tab, case)} {tab.ref(CREPO)} '
+        f'run_case_pre {coq_world(tab, case)} {tab.ref(CREPO)} {coq_pre(tab, case)} '
         f'{coq_invoke(tab, case)}'))
